@@ -79,6 +79,16 @@ CHECKS = {
               'Thousands of generated tables per run against the real '
               'reconciliation code plus end-to-end mappings.',
               'DESIGN.md section 2 C08', _BASE_NOTE),
+    'C09': _e('exploration',
+              'reference-model monitor: the real statistics writers, '
+              'truncation and merge run on labelled matrices held in memory; '
+              'every dataset of every written file compared with an '
+              'independent computation (exact integer arithmetic for the '
+              'CPM thresholds, CPM == 1 boundary entries generated on '
+              'purpose); differential across partitions into files / chunks '
+              '/ workers / encodings',
+              'Every (cluster, gene) entry of every generated file.',
+              'DESIGN.md section 2 C09', _BASE_NOTE),
     'C10': _e('exploration',
               'reference-model monitor: every public query, transformation '
               'and serialisation of the real TaxonomyTree compared with a '
